@@ -12,6 +12,7 @@ import (
 	"strconv"
 	"strings"
 	"sync"
+	"sync/atomic"
 	"time"
 
 	"github.com/weedbox/pokertable"
@@ -34,6 +35,7 @@ type ccStats struct {
 	ActAccepted int            `json:"actions_accepted_in_bursts"`
 	SMBursts    int            `json:"seat_manager_bursts"`
 	ByLeaves    int            `json:"bystander_departures_during_action_bursts"`
+	TopupBursts int            `json:"top_up_bursts_racing_an_open"`
 	Anomalies   int            `json:"anomalies"`
 	Crashes     int            `json:"child_crashes"`
 	Histories   int            `json:"histories"`
@@ -747,6 +749,80 @@ func actionBurst(r *rand.Rand, st *ccStats, hid int) string {
 	return w.String()
 }
 
+// topupBurst (finding D31): PlayerRedeemChips takes no engine lock, while openGame works on a clone of the table and
+// tableGameOpen replaces the table with that clone. One player is topped up one chip at a time, as fast as the calls go,
+// while the gate is made to fire: every accepted top-up must be in his bankroll afterwards.
+func topupBurst(r *rand.Rand, st *ccStats, hid int) string {
+	var w strings.Builder
+	line := func(format string, a ...interface{}) { fmt.Fprintf(&w, format+"\n", a...) }
+	n := 2 + r.Intn(6)
+	setting := pokertable.TableSetting{
+		TableID: fmt.Sprintf("u%d", hid),
+		Meta: pokertable.TableMeta{CompetitionID: "c", Rule: pokertable.CompetitionRule_Default, Mode: pokertable.CompetitionMode_CT, MaxDuration: 1000000,
+			TableMaxSeatCount: 9, TableMinPlayerCount: 2, MinChipUnit: 10, ActionTime: 7},
+		Blind: pokertable.TableBlindState{Level: 1, Ante: 0, Dealer: 0, SB: 10, BB: 20},
+	}
+	rig, err := NewRig(setting, NewRecBackend(), 0)
+	if err != nil {
+		return ""
+	}
+	defer rig.abandon()
+	st.Histories++
+	st.TopupBursts++
+	seats := r.Perm(9)
+	parts := map[string]int{}
+	for i := 0; i < n; i++ {
+		rig.te.PlayerReserve(pokertable.JoinPlayer{PlayerID: pid(i + 1), RedeemChips: 1000, Seat: seats[i]})
+		time.Sleep(200 * time.Microsecond)
+		rig.te.PlayerJoin(pid(i + 1))
+		waitFor(100*time.Millisecond, rig.autoJoinQuiet)
+		schedBarrier(3)
+		time.Sleep(400 * time.Microsecond)
+		parts[pid(i+1)] = i
+	}
+	rig.te.StartTableGame()
+	rig.te.SetUpTableGame(0, parts)
+	time.Sleep(300 * time.Microsecond)
+	who := pid(1 + r.Intn(n))
+	var given atomic.Int64
+	stop := make(chan struct{})
+	done := make(chan struct{})
+	go func() {
+		defer close(done)
+		for {
+			select {
+			case <-stop:
+				return
+			default:
+			}
+			if rig.te.PlayerRedeemChips(pokertable.JoinPlayer{PlayerID: who, RedeemChips: 1}) == nil {
+				given.Add(1)
+			}
+		}
+	}()
+	for i := 0; i < n; i++ {
+		rig.te.PlayerSettlementFinish(pid(i + 1))
+	}
+	waitFor(2600*time.Millisecond, func() bool { return rig.live().State.GameCount == 1 })
+	time.Sleep(3 * time.Millisecond)
+	close(stop)
+	<-done
+	bank := int64(-1)
+	for _, p := range rig.live().State.PlayerStates {
+		if p.PlayerID == who {
+			bank = p.Bankroll
+		}
+	}
+	line("cc new h=%d kind=topups players=%d", hid, n)
+	line("cc topups given=%d bankroll=%d opened=%s", given.Load(), bank, b01(rig.live().State.GameCount == 1))
+	if bank != 1000+given.Load() {
+		line("cc anomaly C01.top-up-accepted-while-a-hand-is-being-opened-is-lost lost=%d given=%d", 1000+given.Load()-bank, given.Load())
+		st.Anomalies++
+	}
+	line("cc end")
+	return w.String()
+}
+
 // smBurst: concurrent seat-manager mutators on a bare seat manager
 func smBurst(r *rand.Rand, st *ccStats, hid int) string {
 	var w strings.Builder
@@ -840,6 +916,7 @@ func runConcChild(args []string) {
 	n := fs.Int("n", 20, "membership bursts")
 	na := fs.Int("actions", 4, "action bursts")
 	ns := fs.Int("sm", 20, "seat-manager bursts")
+	nt := fs.Int("topups", 0, "top-up bursts racing an open")
 	base := fs.Int("base", 0, "first history id")
 	out := fs.String("out", "cc.trace", "trace file")
 	statsFile := fs.String("stats", "", "stats json")
@@ -873,6 +950,10 @@ func runConcChild(args []string) {
 		hid++
 		write(actionBurst(r, st, hid))
 	}
+	for i := 0; i < *nt; i++ {
+		hid++
+		write(topupBurst(r, st, hid))
+	}
 	if *statsFile != "" {
 		b, _ := json.Marshal(st)
 		os.WriteFile(*statsFile, b, 0644)
@@ -885,6 +966,7 @@ func runConc(args []string) {
 	n := fs.Int("n", 120, "membership bursts")
 	na := fs.Int("actions", 12, "action bursts")
 	ns := fs.Int("sm", 200, "seat-manager bursts")
+	nt := fs.Int("topups", 0, "top-up bursts racing an open")
 	out := fs.String("out", "cc.trace", "trace file")
 	statsFile := fs.String("stats", "", "stats json")
 	workers := fs.Int("workers", 6, "child processes")
@@ -906,7 +988,7 @@ func runConc(args []string) {
 			tmp := fmt.Sprintf("%s.%d", *out, wk)
 			stf := tmp + ".json"
 			cmd := exec.Command(os.Args[0], "concchild", "-seed", strconv.FormatInt(*seed*100+int64(wk), 10), "-n", strconv.Itoa((*n+*workers-1) / *workers),
-				"-actions", strconv.Itoa((*na+*workers-1) / *workers), "-sm", strconv.Itoa((*ns+*workers-1) / *workers), "-base", strconv.Itoa(wk*100000), "-out", tmp, "-stats", stf)
+				"-actions", strconv.Itoa((*na+*workers-1) / *workers), "-sm", strconv.Itoa((*ns+*workers-1) / *workers), "-topups", strconv.Itoa((*nt+*workers-1) / *workers), "-base", strconv.Itoa(wk*100000), "-out", tmp, "-stats", stf)
 			var errb strings.Builder
 			cmd.Stderr = &errb
 			cmd.Env = append(os.Environ(), "GOMEMLIMIT=2GiB")
@@ -936,6 +1018,7 @@ func runConc(args []string) {
 					st.SMBursts += sub.SMBursts
 					st.Anomalies += sub.Anomalies
 					st.ByLeaves += sub.ByLeaves
+					st.TopupBursts += sub.TopupBursts
 					st.Histories += sub.Histories
 					for k, v := range sub.ErrKinds {
 						st.ErrKinds[k] += v
